@@ -34,7 +34,8 @@ RULE = ("pipeline: filter lists of 0-4 entries over {h,x,u,trim,entity,str,unico
         "and all 4-filter lists x 2 of 4 representative configurations (alternating with the seed) at the other sites; "
         "quick: all lists of <=2 plus a seeded sample of 3-4) x default_filters "
         "{None,[],[str],[f],[f,g]} x page expression_filter {absent,g,n,'g,n'} x site {expression, def filter=, "
-        "block filter=, <%text filter=>, buffered def + buffer_filters {[],[g],[f,n],[trim,f]}}; non-trivial = at least "
+        "block filter=, <%text filter=>, buffered def + buffer_filters {[],[g],[f,n],[trim,f]}}; smaller streams: <%call expr> under "
+        "all 20 configurations, cached defs (buffered or not) x buffer_filters, built-in flags x strict_undefined; non-trivial = at least "
         "two pipeline sources contribute or `n` is present; distinct = distinct (site, D, P, B, list). "
         "scanner: every concatenation of <=k tokens over { } ( ) [ ] | ' \" ''' \"\"\" \\ # \\n a (quick k=4 for both "
         "terminator sets; thorough k=5 for both, k=6 for `|`,`}` and a 1/8 phase of k=6 for `}`, a 1/64 phase of k=7), "
@@ -69,10 +70,11 @@ NPROC = min(16, os.cpu_count() or 1)
 FILTERS = ["h", "x", "u", "trim", "entity", "str", "unicode", "n", "decode.utf8", "f", "g", "f(1)", 'g("a|b")']
 DEFAULTS = [None, [], ["str"], ["f"], ["f", "g"]]
 PAGES = [None, "g", "n", "g,n"]
-SITES = ["expr", "def", "block", "text", "bufdef"]
+SITES = ["expr", "def", "block", "text", "bufdef"]      # + "call", "cachedef", "cachedefnb" (smaller streams)
 BUFS = [[], ["g"], ["f", "n"], ["trim", "f"]]
 REPR_CFGS = [(None, None), (["f", "g"], "g,n"), ([], "g"), (["f"], "n")]
 TARGET = "__M_buf.getvalue()"
+CACHED_SITES = ("cachedef", "cachedefnb")     # cached + buffered, cached only
 
 
 def all_lists(k):
@@ -106,8 +108,12 @@ def build_template(site, P, lists, call=True):
         elif site == "block":
             out.append('<%%block name="b%d" filter="%s"> <b&"é> </%%block>' % (k, attr_text(fs)) if fs
                        else '<%%block name="b%d"> <b&"é> </%%block>' % k)
+        elif site == "call":
+            out.append('<%call expr="r()">b</%call>')
         else:
-            buffered = ' buffered="True"' if site == "bufdef" else ""
+            buffered = ' buffered="True"' if site in ("bufdef", "cachedef") else ""
+            if site in CACHED_SITES:
+                buffered += ' cached="True"'
             fa = ' filter="%s"' % attr_text(fs) if fs else ""
             out.append('<%%def name="d%d()"%s%s> <d&"é> </%%def>' % (k, buffered, fa))
             if call:
@@ -142,6 +148,15 @@ def canon(node):
     return ast.dump(node)
 
 
+class _CacheCall(ast.NodeTransformer):
+    """the `cache._ctx_get_or_create(…)` call of a caching wrapper is the target of its filter expression"""
+
+    def visit_Call(self, node):
+        if isinstance(node.func, ast.Attribute) and node.func.attr == "_ctx_get_or_create":
+            return ast.Name(id="CACHED", ctx=ast.Load())
+        return self.generic_visit(node)
+
+
 def canon_text(src):
     try:
         return ast.dump(ast.parse(src, mode="eval").body)
@@ -161,7 +176,23 @@ def real_exprs(site, D, P, B, lists):
     tree = ast.parse(t.code)
     funcs = {n.name: n for n in tree.body if isinstance(n, ast.FunctionDef)}
     res = [None] * len(lists)
-    if site in ("expr", "text"):
+    if site in CACHED_SITES:
+        # the def compiles to two functions of the same name: the one whose result is cached, then the wrapper
+        for k in range(len(lists)):
+            fns = [n for n in tree.body if isinstance(n, ast.FunctionDef) and n.name == "render_d%d" % k]
+            if len(fns) != 2:
+                raise AssertionError("cached def compiled to %d functions" % len(fns))
+            pair = []
+            for fn, needle in ((fns[0], TARGET), (fns[1], "_ctx_get_or_create")):
+                v = _Ordered()
+                v.visit(fn)
+                hits = [val for kind, val in v.events if kind in ("write", "return") and needle in ast.unparse(val)]
+                if len(hits) != 1:
+                    raise AssertionError("%d filter expressions in %s" % (len(hits), fn.name))
+                pair.append(canon(_CacheCall().visit(hits[0])))
+            res[k] = pair
+        return res
+    if site in ("expr", "text", "call"):
         v = _Ordered()
         v.visit(funcs["render_body"])
         cur = None
@@ -173,6 +204,9 @@ def real_exprs(site, D, P, B, lists):
                     if res[cur] is not None:
                         raise AssertionError("two expression writers for case %d" % cur)
                     res[cur] = canon(val)
+                elif site == "call":
+                    if "r()" in ast.unparse(val):
+                        res[cur] = canon(val)
                 else:
                     if TARGET in ast.unparse(val):
                         res[cur] = canon(val)
@@ -210,19 +244,25 @@ def squeeze(line):
 
 
 def model_requests(site, D, P, B, lists):
+    """per case the list of requests whose answers make up the case's expression(s)"""
     reqs = []
-    pargs_cache = {}
     for fs in lists:
         text = ", ".join(fs) if site == "expr" else attr_text(fs)
         args = real_args(text)
         cfg = cfg_fields(D if D is None else [a for a in D], P)
         if site == "expr":
-            reqs.append(squeeze("pipe visit %s %s %s %s" % (enc(text), enc("x"), cfg, lst_fields(args))))
+            reqs.append([squeeze("pipe visit %s %s %s %s" % (enc(text), enc("x"), cfg, lst_fields(args)))])
+        elif site == "call":
+            reqs.append([squeeze("pipe calltag %s %s" % (enc("r()"), cfg))])
         elif site == "text":
-            reqs.append(squeeze("pipe cfc 0 %s %s %s" % (enc(TARGET), cfg, lst_fields(args))))
+            reqs.append([squeeze("pipe cfc 0 %s %s %s" % (enc(TARGET), cfg, lst_fields(args)))])
+        elif site in CACHED_SITES:
+            b = 1 if site == "cachedef" else 0
+            reqs.append([squeeze("pipe deffin %d 1 %s %s %s %s" % (b, enc(TARGET), cfg, lst_fields(args), lst_fields(list(B)))),
+                         squeeze("pipe cachedeco %d %s %s %s" % (b, enc("CACHED"), cfg, lst_fields(list(B))))])
         else:
-            reqs.append(squeeze("pipe deffin %d 0 %s %s %s %s" % (1 if site == "bufdef" else 0, enc(TARGET), cfg,
-                                                               lst_fields(args), lst_fields(list(B)))))
+            reqs.append([squeeze("pipe deffin %d 0 %s %s %s %s" % (1 if site == "bufdef" else 0, enc(TARGET), cfg,
+                                                                lst_fields(args), lst_fields(list(B))))])
     return reqs
 
 
@@ -236,6 +276,10 @@ def classify(site, D, P, B, fs):
             return "expr:n-in-page"
         srcs = (1 if d else 0) + (1 if p else 0) + (1 if fs else 0)
         return "expr:%d-sources" % srcs
+    if site == "call":
+        return "call:%d-sources" % ((1 if d else 0) + (1 if p else 0))
+    if site in CACHED_SITES:
+        return "%s:%s" % (site, ("B+F" if (B and fs) else "B" if B else "F" if fs else "none"))
     if site == "bufdef":
         return "bufdef:%s" % ("B+F" if (B and fs) else "B" if B else "F" if fs else "none")
     return "%s:%s" % (site, "n" if "n" in fs else "filtered" if fs else "unfiltered")
@@ -270,21 +314,26 @@ def task_pipe_corr(a):
                          "model": None, "impl": "exception %r" % (e,)})
         r["ndis"] += 1
         return r
-    outs = drv.ask_many(model_requests(site, D, P, B, lists))
-    r["drv"] += len(outs)
-    for fs, ro, mo in zip(lists, real, outs):
+    reqs = model_requests(site, D, P, B, lists)
+    flat = drv.ask_many([q for qs in reqs for q in qs])
+    r["drv"] += len(flat)
+    outs, i = [], 0
+    for qs in reqs:
+        outs.append(flat[i:i + len(qs)])
+        i += len(qs)
+    for fs, ro, mos in zip(lists, real, outs):
         r["cases"] += 1
         br(r, "pipe:" + classify(site, D, P, B, fs))
-        mtext = dec(mo) if (mo == "-" or mo[:1].isdigit()) else mo
+        mtexts = [dec(mo) if (mo == "-" or mo[:1].isdigit()) else mo for mo in mos]
         if ro is None:
-            ok = (mtext == TARGET) if site != "expr" else False
+            ok = (mtexts == [TARGET]) if site not in ("expr", "call") else False
         else:
-            ok = canon_text(mtext) == ro
+            ok = [canon_text(m) for m in mtexts] == (ro if isinstance(ro, list) else [ro])
         if not ok:
             r["ndis"] += 1
             if len(r["dis"]) < 5:
                 r["dis"].append({"case": {"kind": "pipe", "site": site, "D": D, "P": P, "B": B, "fs": fs},
-                                 "model": mtext, "impl": ro})
+                                 "model": mtexts, "impl": ro})
         if nontrivial_pipe(site, D, P, B, fs):
             r["nontriv"].append(hash((site, tuple(D) if D is not None else None, P, tuple(B), tuple(fs))))
     return r
@@ -326,7 +375,31 @@ def install_usermod():
     m = types.ModuleType(USERMOD)
     m.f = user_f
     m.g = user_g
+    from mako.cache import CacheImpl, register_plugin
+
+    class MemCacheImpl(CacheImpl):
+        """minimal in-memory back end so that cached defs can be rendered"""
+
+        def __init__(self, cache):
+            super().__init__(cache)
+            self.d = {}
+
+        def get_or_create(self, key, creation_function, **kw):
+            if key not in self.d:
+                self.d[key] = creation_function()
+            return self.d[key]
+
+        def set(self, key, value, **kw):
+            self.d[key] = value
+
+        def get(self, key, **kw):
+            return self.d.get(key)
+
+        def invalidate(self, key, **kw):
+            self.d.pop(key, None)
+    m.MemCacheImpl = MemCacheImpl
     sys.modules[USERMOD] = m
+    register_plugin("c02mem", USERMOD, "MemCacheImpl")
 
 
 def documented(name):
@@ -351,7 +424,11 @@ def documented_chain(site, D, P, B, fs):
             chain = p + list(fs)
             if "n" not in chain:
                 chain = d + chain
-    elif site == "bufdef":
+    elif site == "call":
+        chain = p + []
+        if "n" not in chain:
+            chain = d + chain
+    elif site in ("bufdef", "cachedef"):
         chain = list(fs) + list(B)
     else:
         chain = list(fs)
@@ -359,11 +436,12 @@ def documented_chain(site, D, P, B, fs):
 
 
 X0 = ' <v&"é> '
-BODY = {"text": ' <t&"é>${y} ', "block": ' <b&"é> ', "def": ' <d&"é> ', "bufdef": ' <d&"é> '}
+BODY = {"text": ' <t&"é>${y} ', "block": ' <b&"é> ', "def": ' <d&"é> ', "bufdef": ' <d&"é> ',
+        "cachedef": ' <d&"é> ', "cachedefnb": ' <d&"é> '}
 
 
 def expected_output(site, D, P, B, fs, x=None):
-    v = (V(X0) if x is None else x) if site == "expr" else BODY[site]
+    v = (V(X0) if x is None else x) if site in ("expr", "call") else BODY[site]
     try:
         for name in documented_chain(site, D, P, B, fs):
             v = documented(name)(v)
@@ -388,7 +466,9 @@ def render_cases(site, D, P, B, lists, how, x=None, strict=False):
     kw = {}
     if D is not None:
         kw["default_filters"] = D
-    data = {"x": V(X0) if x is None else x, "y": "${y}"}
+    data = {"x": V(X0) if x is None else x, "y": "${y}", "r": (lambda: V(X0) if x is None else x)}
+    if site in CACHED_SITES:
+        kw["cache_impl"] = "c02mem"
     if how == "import":
         kw["imports"] = ["from %s import f, g" % USERMOD]
     else:
@@ -910,17 +990,32 @@ def shrink_scan(c):
 def corr_regexes(ctx, drv):
     """`(.+?)(\\(.*\\))`, `decode\\..+` and locate_encode against re / DEFAULT_ESCAPES"""
     from mako import filters
-    toks = ["f", "(", ")", "\n", ".", "decode", "decode.", "h", "1", " ", "'", "trim", "n", "x("]
+    toks = ["f", "(", ")", "\n", ".", "decode", "decode.", "h", "1", " ", "'", "trim", "n", "x(", ").g", ")[0]"]
     k = 4 if ctx.quick else 5
     strings = ["".join(t) for n in range(k + 1) for t in itertools.product(toks, repeat=n)]
     strings = sorted(set(strings))
     st = ctx.stream("corr.filter-regexes", exhaustive=True)
     outs = drv.ask_many("pipe split " + enc(s) for s in strings)
     res = drv.ask_many("pipe resolve " + enc(s) for s in strings)
-    rx = re.compile(r"(.+?)(\(.*\))")
+    # the regex literals are read from the source under test (the same ones tools/regen_pipeline.py classifies)
+    repo = os.environ.get("MAKO_REPO", "/repo")
+    lits = []
+    for node in ast.walk(ast.parse(open(os.path.join(repo, "mako", "codegen.py"), encoding="utf-8").read())):
+        if isinstance(node, ast.FunctionDef) and node.name == "create_filter_callable":
+            for c in ast.walk(node):
+                if (isinstance(c, ast.Call) and isinstance(c.func, ast.Attribute) and c.func.attr == "match"
+                        and c.args and isinstance(c.args[0], ast.Constant)):
+                    lits.append(c.args[0].value)
+    call_lits = [l for l in lits if l.startswith("(")]
+    dec_lits = [l for l in lits if l.startswith("decode")]
+    if len(call_lits) != 1 or len(dec_lits) != 1:
+        ctx.broke("correspondence:filter-regexes", "create_filter_callable matches %r" % (lits,))
+        return
+    rx = re.compile(call_lits[0])
+    ctx.branch("call-regex:" + call_lits[0])
 
     def locate(name):
-        if re.match(r"decode\..+", name):
+        if re.match(dec_lits[0], name):
             return "filters." + name
         return filters.DEFAULT_ESCAPES.get(name, name)
     for s, o, ro in zip(strings, outs, res):
@@ -1057,6 +1152,24 @@ def pipe_jobs(ctx):
             for ch in chunks(oracle_other, 300):
                 orc.append(("bufdef", D, P, B, ch, "import" if i % 3 == 0 else "context"))
                 i += 1
+    small2 = list(all_lists(2))
+    few = small2 if not ctx.quick else small2[::3]
+    for D in DEFAULTS:
+        for P in PAGES:
+            # <%call expr>: the call expression goes through create_filter_callable([], e, True)
+            corr.append(("call", D, P, B0, [[]]))
+            orc.append(("call", D, P, B0, [[]], "import", (False, True)))
+    for (D, P) in REPR_CFGS:
+        for B in BUFS:
+            for site in CACHED_SITES:
+                for ch in chunks(few, 200):
+                    corr.append((site, D, P, B, ch))
+                    orc.append((site, D, P, B, ch, "import" if i % 2 else "context", (False, True)))
+                    i += 1
+            if B:
+                # a def that is filtered but not buffered: buffer_filters are not applied (model = code)
+                for ch in chunks(few, 200):
+                    corr.append(("def", D, P, B, ch))
     # every built-in flag name (alone and in pairs with every other entry) at every site, strict_undefined off AND on
     flag_lists = list(all_lists(2)) + [["decode.latin1"], ["decode.ascii", "h"], ["n", "decode.utf_8"], ["trim", "decode.cp1252"]]
     for (D, P) in REPR_CFGS + [(["str"], None)]:
@@ -1284,9 +1397,10 @@ def replay(ctx, data):
         try:
             site, D, P, B, fs = case["site"], case["D"], case["P"], case["B"], case["fs"]
             real = real_exprs(site, D, P, B, [fs])[0]
-            mo = ctx.driver().ask(model_requests(site, D, P, B, [fs])[0])
             print("generated :", real)
-            print("model     :", dec(mo) if (mo == "-" or mo[:1].isdigit()) else mo)
+            for q in model_requests(site, D, P, B, [fs])[0]:
+                mo = ctx.driver().ask(q)
+                print("model     :", dec(mo) if (mo == "-" or mo[:1].isdigit()) else mo)
         except Exception as e:
             print("model/impl comparison failed:", e)
         return ok
